@@ -349,6 +349,70 @@ func checkMappingDiff(p *core.Prog, r *core.Result, diffMapping, DiffDepth *ssa.
 			}
 		}
 	})
+	// lookup-like helpers: h(m, key, ...) whose results 0 and 1 are the value and the found flag of m.Get(key)
+	// on every return (or nil/false on a return that also reports an error)
+	lookupLike := func(h *ssa.Function) (mapParam int, ok bool) {
+		if h == nil || !core.InModule(h) || h.Blocks == nil || h.Signature.Results().Len() < 2 {
+			return 0, false
+		}
+		var get *ssa.Call
+		core.Instrs(h, func(in ssa.Instruction) {
+			if c, isCall := in.(*ssa.Call); isCall && c.Call.IsInvoke() && c.Call.Method.Name() == "Get" {
+				if prm, isPrm := c.Call.Value.(*ssa.Parameter); isPrm && len(c.Call.Args) == 1 {
+					if _, keyPrm := c.Call.Args[0].(*ssa.Parameter); keyPrm {
+						get = c
+						mapParam = paramIndex(h, prm)
+					}
+				}
+			}
+		})
+		if get == nil {
+			return 0, false
+		}
+		n := 0
+		for _, ret := range core.ReturnsOf(h) {
+			rv := core.RetVals(ret)
+			if len(rv) < 2 {
+				return 0, false
+			}
+			e0, ok0 := rv[0].(*ssa.Extract)
+			e1, ok1 := rv[1].(*ssa.Extract)
+			if ok0 && ok1 && e0.Tuple == ssa.Value(get) && e0.Index == 0 && e1.Tuple == ssa.Value(get) && e1.Index == 1 {
+				n++
+				continue
+			}
+			// an error return: found=false together with a non-nil error as last result
+			if b, isConst := core.ConstBool(rv[1]); isConst && !b {
+				if nn, known := p.FactsAt(ret).ErrNonNil(rv[len(rv)-1]); known && nn {
+					continue
+				}
+				if e, isE := rv[len(rv)-1].(*ssa.Extract); isE && e.Tuple == ssa.Value(get) {
+					if nn, known := p.FactsAt(ret).ErrNonNil(e); known && nn {
+						continue
+					}
+				}
+			}
+			return 0, false
+		}
+		return mapParam, n > 0
+	}
+	core.Instrs(diffMapping, func(in ssa.Instruction) {
+		c, ok := in.(*ssa.Call)
+		if !ok || c.Call.IsInvoke() {
+			return
+		}
+		if mp, ok := lookupLike(core.Callee(c)); ok && mp < len(c.Call.Args) {
+			arg := c.Call.Args[mp]
+			if ci, isCI := arg.(*ssa.ChangeInterface); isCI {
+				arg = ci.X
+			}
+			for s := 0; s < 2; s++ {
+				if arg == ssa.Value(vps[s]) {
+					gets = append(gets, getCall{c, s})
+				}
+			}
+		}
+	})
 	foundFact := func(at ssa.Instruction, side int, want bool) bool {
 		return p.FactsAt(at).Find(func(cv ssa.Value, v bool) bool {
 			e, ok := cv.(*ssa.Extract)
